@@ -7,6 +7,7 @@ import (
 	"math/rand"
 	"sort"
 	"sync"
+	"sync/atomic"
 	"time"
 
 	"github.com/yandex/pandora/core"
@@ -195,11 +196,11 @@ func runCase(res *vkit.Result, c Case) {
 				if c.Scenario == "shared-unknown-tail" {
 					inner = schedule.NewComposite(schedule.NewConst(rate, 60*time.Millisecond), schedule.NewOnce(1), schedule.NewUnlimited(rpsDur))
 				} else if c.Scenario == "shared-long" && c.Seed%4 == 1 {
-					// a shared profile made of thousands of small bursts with a pause of 200 µs after
+					// a shared profile made of thousands of small bursts with a pause of 500 µs after
 					// each: the instances cross a boundary into an empty part all the time
 					var parts []core.Schedule
-					for d := time.Duration(0); d < rpsDur; d += 200 * time.Microsecond {
-						parts = append(parts, schedule.NewOnce(2), schedule.NewConst(0, 200*time.Microsecond))
+					for d := time.Duration(0); d < rpsDur; d += 500 * time.Microsecond {
+						parts = append(parts, schedule.NewOnce(2), schedule.NewConst(0, 500*time.Microsecond))
 					}
 					inner = schedule.NewComposite(parts...)
 				} else if c.Seed%2 == 0 {
@@ -243,12 +244,16 @@ func runCase(res *vkit.Result, c Case) {
 	ctx, cancel := context.WithCancel(context.Background())
 	defer cancel()
 	var cmu sync.Mutex
+	var abandoned atomic.Bool
 	plan.OnClose = func(g *vkit.MockGun) {
 		// the instance has finished: one of the permitted causes must have been observed
 		rs, _ := g.User.(*vkit.RecSchedule)
 		cmu.Lock()
 		ca := cancelledAt
 		cmu.Unlock()
+		if abandoned.Load() {
+			return // the case hit the monitor's watchdog and was cancelled by the monitor itself: not judged
+		}
 		caused := (rs != nil && rs.FinishSeenAt.Load() != 0) || prov.ExhaustedAt.Load() != 0 || ca != 0 || plan.FaultFired.Load()
 		if !caused {
 			fail("instance-stopped", "instance %d finished although its RPS profile was not exhausted, ammo was not exhausted, nothing failed and the run was not cancelled", g.InstanceID)
@@ -275,6 +280,7 @@ func runCase(res *vkit.Result, c Case) {
 	select {
 	case err = <-done:
 	case <-time.After(30 * time.Second):
+		abandoned.Store(true)
 		res.Inconclusive(false, "case did not end within 30s: %s", vkit.JSON(c))
 		return
 	}
